@@ -28,13 +28,17 @@
 (*   MarkerFirst    prune deletes a version's root marker before its nodes *)
 (*   BuildLabelLast an index (re)build writes the entries first and the     *)
 (*                  label, which declares the index complete, last          *)
+(*   WipeWhenEmpty  the clean-up of a residue labels the index 0; when no   *)
+(*                  version remains that is the label of the empty latest   *)
+(*                  version, so the entries have to be deleted as well      *)
 (* The two listed findings are the disjuncts DevPrune and DevRollback.     *)
 (***************************************************************************)
 EXTENDS Integers, Sequences, FiniteSets, TLC
 
 CONSTANTS N,               \* versions 1..N may exist
           LabelFirst, ResidueRecovery, MarkerFirst,
-          BuildLabelLast   \* an index build writes its label after the entries
+          BuildLabelLast,  \* an index build writes its label after the entries
+          WipeWhenEmpty    \* discarding the residue of the very first commit also deletes the index entries
 
 Vers == 1..N
 
@@ -49,17 +53,18 @@ vars == <<body, root, idx, label, batch, op, pre, post, crashed, rec>>
 None == [kind |-> "none"]
 Range(f, l) == [first |-> f, latest |-> l]
 
-Init == /\ body = [v \in Vers |-> v = 1] /\ root = [v \in Vers |-> v = 1]
-        /\ idx = <<1, 1>> /\ label = 1
+\* an empty store whose (empty) index is labelled 0
+Init == /\ body = [v \in Vers |-> FALSE] /\ root = [v \in Vers |-> FALSE]
+        /\ idx = <<0, 0>> /\ label = 0
         /\ batch = <<>> /\ op = None
-        /\ pre = Range(1, 1) /\ post = Range(1, 1)
+        /\ pre = Range(0, 0) /\ post = Range(0, 0)
         /\ crashed = FALSE /\ rec = [ok |-> TRUE]
 
 \* what Load() sees
 Highest == IF \E v \in Vers : body[v] \/ root[v] THEN CHOOSE v \in Vers : (body[v] \/ root[v]) /\ \A w \in Vers : (body[w] \/ root[w]) => w <= v ELSE 0
 \* the first version: binary search over root keys finds the lowest root at or above which all roots exist (holes confuse it)
 LowestRoot == IF \E v \in Vers : root[v] THEN CHOOSE v \in Vers : root[v] /\ \A w \in Vers : root[w] => v <= w ELSE 0
-Contiguous(f, l) == \A v \in f..l : root[v]
+Contiguous(f, l) == \A v \in (f..l) \cap Vers : root[v]
 
 Apply(item) ==
   CASE item.w = "body"    -> body' = [body EXCEPT ![item.v] = TRUE] /\ UNCHANGED <<root, idx, label>>
@@ -79,7 +84,7 @@ StartCommit ==
          lb == <<[w |-> "label", v |-> v]>> IN
      /\ batch' = (IF LabelFirst THEN lb \o ix ELSE ix \o lb) \o <<[w |-> "body", v |-> v], [w |-> "root", v |-> v]>>
      /\ op' = [kind |-> "commit", a |-> v]
-     /\ pre' = post /\ post' = Range(post.first, v)
+     /\ pre' = post /\ post' = Range(IF post.first = 0 THEN v ELSE post.first, v)
   /\ UNCHANGED <<body, root, idx, label, crashed, rec>>
 \* SaveVersion(latest+1) through a handle with the fast index off: nodes and root only, the label goes stale
 StartCommitNoIndex ==
@@ -87,7 +92,7 @@ StartCommitNoIndex ==
   /\ LET v == post.latest + 1 IN
      /\ batch' = <<[w |-> "body", v |-> v], [w |-> "root", v |-> v]>>
      /\ op' = [kind |-> "commit", a |-> v]
-     /\ pre' = post /\ post' = Range(post.first, v)
+     /\ pre' = post /\ post' = Range(IF post.first = 0 THEN v ELSE post.first, v)
   /\ UNCHANGED <<body, root, idx, label, crashed, rec>>
 \* a handle with the index on finds a stale label and rebuilds the index from the latest version
 StartBuild ==
@@ -140,11 +145,15 @@ Crash ==
          residue == hi # 0 /\ ~root[hi]
          lat == IF residue /\ ResidueRecovery THEN (IF \E v \in Vers : root[v] THEN CHOOSE v \in Vers : root[v] /\ \A w \in Vers : root[w] => w <= v ELSE 0) ELSE hi
          fst == LowestRoot
-         loadok == lat # 0 /\ root[lat] /\ (~residue \/ ResidueRecovery)
+         loadok == (~residue \/ ResidueRecovery) /\ (lat = 0 \/ root[lat])
+         \* the clean-up of a residue (DeleteVersionsFrom) labels the index 0 and, if nothing remains, wipes it
+         cleaned == residue /\ ResidueRecovery
+         recLabel == IF cleaned THEN 0 ELSE label
+         recIdx == IF cleaned /\ lat = 0 /\ WipeWhenEmpty THEN <<0, 0>> ELSE idx
          \* index: trusted iff the label equals the latest version; otherwise rebuilt
-         idxok == label # lat \/ (idx[1] = lat /\ idx[2] = lat) IN
+         idxok == recLabel # lat \/ (recIdx[1] = lat /\ recIdx[2] = lat) IN
      rec' = [ok |-> loadok, first |-> fst, latest |-> lat, idxok |-> idxok,
-             listedIntact |-> loadok /\ Contiguous(fst, lat) /\ \A v \in fst..lat : body[v]]
+             listedIntact |-> loadok /\ Contiguous(fst, lat) /\ \A v \in (fst..lat) \cap Vers : body[v]]
   /\ UNCHANGED <<body, root, idx, label, op, pre, post>>
 
 Next == StartCommit \/ StartCommitNoIndex \/ StartBuild \/ (\E n \in Vers : StartPrune(n)) \/ (\E t \in Vers : StartRollback(t)) \/ Flush \/ Finish \/ Crash
